@@ -1517,12 +1517,16 @@ class EBPF(EBPFBase):
         self.owners |= registers
         save = []
         with ExitStack() as exitStack:
+            # a call clobbers r0 to r5: never park a saved value there
+            busy = set(range(6)) - self.owners
+            self.owners |= busy
             for i in registers:
                 if i in oldowners:
                     tmp = exitStack.enter_context(self.get_free_register(None))
                     self.append(Opcode.MOV+Opcode.LONG+Opcode.REG,
                                 tmp, i, 0, 0)
                     save.append((tmp, i))
+            self.owners -= busy
             yield
             for tmp, i in save:
                 self.append(Opcode.MOV+Opcode.LONG+Opcode.REG, i, tmp, 0, 0)
